@@ -491,10 +491,12 @@ func lastConstStoreV(cell *ssa.Alloc, at ssa.Instruction) (val, known bool) {
 	return false, false
 }
 
-// condKnownV: the branch condition v is (the negation of) a captured boolean variable whose value is assumed.
+// condKnownV: the branch condition v is (the negation of) a boolean constant, or of a captured boolean variable whose
+// value is assumed.
 func condKnownV(v ssa.Value, assume map[*ssa.FreeVar]bool) (val, known bool) {
-	if len(assume) == 0 {
-		return false, false
+	// a flag that was a local of an inlined helper is a constant of the SSA form by the time it is tested
+	if k, isC := v.(*ssa.Const); isC && k.Value != nil && k.Value.Kind() == constant.Bool {
+		return constant.BoolVal(k.Value), true
 	}
 	u, ok := v.(*ssa.UnOp)
 	if !ok {
